@@ -6,7 +6,7 @@ from simkit import sessioncheck
 PROPERTY = "C05"
 ENGINE = "session"
 LEVEL = "exploration"
-BUDGET = {"quick": (40000, 45), "thorough": (2500000, 540)}
+BUDGET = {"quick": (100000, 60), "thorough": (2500000, 540)}
 RULE = ("seeded value-editing histories (constructor, values=, dtype=, append/extend/insert with "
         "strict on and off, item assignment, remove, merge, clone) with inputs from a per-dtype "
         "shape table (native, text form, near miss, None/empty, mixed lists, bracket strings, tuple "
